@@ -1,1 +1,83 @@
-// replay hooks for src/levels/mod.rs (included as a child module `verif_replay` of that file)
+// Bounded-check driver for src/levels/mod.rs (child module `verif_replay`).
+// C11: LevelManifest::min_oldest_vlog_file_id is the minimum over ALL live tables - including the
+// inputs of an in-flight compaction (hidden_set) - of their oldest_vlog_file_id (> 0), 0 if none.
+// Bound (stated): <= 3 tables spread over 2 levels, oldest ids from {0,1,2,3}, every hidden subset.
+use super::*;
+use crate::sstable::table::TableWriter;
+use crate::vlog::{ValueLocation, ValuePointer};
+use crate::{InternalKey, InternalKeyKind};
+
+fn mk_table(id: u64, oldest: u32, opts: &Arc<Options>) -> Arc<Table> {
+	let mut buf = Vec::new();
+	{
+		let mut w = TableWriter::new(&mut buf, id, Arc::clone(opts), 0);
+		let key = InternalKey::new(format!("k{id:02}").into_bytes(), id, InternalKeyKind::Set, 0);
+		let val = if oldest == 0 {
+			ValueLocation::with_inline_value(vec![1, 2, 3]).encode()
+		} else {
+			ValueLocation::with_pointer(ValuePointer::new(oldest, 0, 3, 3, 1)).encode()
+		};
+		w.add(key, &val).unwrap();
+		w.finish().unwrap();
+	}
+	let size = buf.len() as u64;
+	let file: Arc<dyn File> = Arc::new(buf);
+	Arc::new(Table::new(id, Arc::clone(opts), file, size).unwrap())
+}
+
+#[test]
+fn min_oldest_vlog_enum() {
+	let opts = Arc::new(Options::new());
+	let mut cases = 0u64;
+	let mut nontrivial = std::collections::HashSet::new();
+	let mut failures: Vec<String> = Vec::new();
+	for n in 0..=3usize {
+		for c in 0..4usize.pow(n as u32) {
+			let mut olds = Vec::new();
+			let mut x = c;
+			for _ in 0..n {
+				olds.push((x % 4) as u32);
+				x /= 4;
+			}
+			for split in 0..=n {
+				for hidden_mask in 0..(1u32 << n) {
+					cases += 1;
+					let tables: Vec<Arc<Table>> = olds.iter().enumerate().map(|(i, &o)| mk_table(i as u64 + 1, o, &opts)).collect();
+					let l0 = Level { tables: tables[..split].to_vec() };
+					let l1 = Level { tables: tables[split..].to_vec() };
+					let mut hidden = HashSet::new();
+					for i in 0..n {
+						if hidden_mask & (1 << i) != 0 {
+							hidden.insert(i as u64 + 1);
+						}
+					}
+					let m = LevelManifest {
+						path: PathBuf::new(),
+						levels: Levels(vec![Arc::new(l0), Arc::new(l1)]),
+						hidden_set: hidden.clone(),
+						next_table_id: Arc::new(AtomicU64::new(100)),
+						manifest_format_version: MANIFEST_FORMAT_VERSION_V1,
+						snapshots: Vec::new(),
+						log_number: 0,
+						last_sequence: 0,
+					};
+					let want = olds.iter().copied().filter(|&o| o > 0).min().unwrap_or(0);
+					let got = m.min_oldest_vlog_file_id();
+					if hidden_mask != 0 && olds.iter().filter(|&&o| o > 0).count() >= 2 {
+						nontrivial.insert((olds.clone(), split, hidden_mask));
+					}
+					if got != want && failures.len() < 5 {
+						failures.push(format!("{{\"tables_oldest_vlog_ids\":{:?},\"tables_on_level0\":{},\"hidden_table_ids\":{:?},\"expected_min\":{},\"real\":{}}}", olds, split, { let mut h: Vec<u64> = hidden.iter().copied().collect(); h.sort(); h }, want, got));
+					}
+				}
+			}
+		}
+	}
+	println!(
+		"REPLAY-RESULT {{\"driver\":\"levels::min_oldest_vlog_enum\",\"cases\":{},\"distinct_nontrivial\":{},\"failures\":[{}]}}",
+		cases,
+		nontrivial.len(),
+		failures.join(",")
+	);
+	assert!(failures.is_empty());
+}
